@@ -939,7 +939,9 @@ class ModelImpl(*_model_impl_base):
     def _check_sanity(self):
 
         for name, r in self.global_refs.items():
-            if name != "__builtins__":
+            if name != "__builtins__" and not isinstance(
+                    r.interface, Interface):
+                # Only values that are not modelx objects are registered
                 assert id(r.interface) in self.refmgr._valid_to_refs
 
         self.refmgr._check_sanity()
